@@ -176,4 +176,17 @@ def predictCompact (bc : Nat → Bool) (tbl oldPath : List BlkInfo) (horizon thr
   | .openFail why => s!"open=err:{why.toString}"
   | .ok h => s!"open=ok head=b{h}"
 
+/-- the same for a node whose last compaction ran when its head stood at height `c` (its files are
+compacted w.r.t. `prunedAt oldPath (c - horizon)`, its tail is `compactTail c ..`) and which has
+gone on to `oldPath` since: `Chain::compact` a second time -/
+def predictCompactAgain (bc : Nat → Bool) (tbl oldPath : List BlkInfo) (horizon thr ivl c : Nat)
+    (labels : List String) (n : Nat) : String :=
+  let hh := oldPath.length - 1
+  let t : CTarget := { newPrun := prunedAt oldPath (hh - horizon), newTail := compactTail hh horizon thr ivl }
+  let start := consistentC oldPath (prunedAt oldPath (c - horizon)) (compactTail c horizon thr ivl)
+  let d := (cstepsOfLabels labels n).foldl (applyCStep t) start
+  match recoverC bc tbl d with
+  | .openFail why => s!"open=err:{why.toString}"
+  | .ok h => s!"open=ok head=b{h}"
+
 end GV.Crash
